@@ -166,3 +166,22 @@ Theorem C20_repeated_reference : forall e rvs names r ps,
   resolve_catalog_refs e rvs [r; r] names = Ok (ps ++ ps).
 Proof. exact resolve_refs_repeat. Qed.
 Print Assumptions C20_repeated_reference.
+
+(** the same for every query of every accepted package compiled in positional mode *)
+From Verif Require Import Model.CompileFiles Proofs.RunOrigin.
+Theorem C20_run_partial : forall e files qs name q,
+  compile_queries e true files = Ok qs -> In (name, q) qs ->
+  exists src stmts raw,
+    In (name, src, stmts) files /\ In raw stmts /\ parse_query e raw src true = Ok (Some q) /\
+    (c20_class e raw = 0%N ->
+     exists refs0,
+       find_parameters (kid "Stmt" (fst (fst (named_parameters (env_engine e) raw)))) = Ok refs0 /\
+       forall marks,
+         StronglySorted (fun a b => (fst a < fst b)%Z) marks ->
+         Permutation (map mark_of refs0) marks ->
+         map p_num (q_params q) = map snd marks).
+Proof.
+  intros e files qs name q H Hin. destruct (run_query_origin e true files qs name q H Hin) as [src [stmts [raw [A [B C]]]]].
+  exists src, stmts, raw. repeat split; try assumption. intro Hc. exact (C20_compiled_partial e raw src q C Hc).
+Qed.
+Print Assumptions C20_run_partial.
